@@ -6,6 +6,7 @@ package world
 
 import (
 	"net/http"
+	"os"
 
 	"verif/sim/internal/sched"
 )
@@ -26,6 +27,20 @@ const (
 	SiteObs                              // observer operation (rw engine)
 	SiteMax
 )
+
+// AutoMode is set when the worker runs a build of flamego instrumented by cmd/autoyield (a yield
+// before every statement). Engines switch planned cancels off in that mode: their request-local
+// coordinates count yields, and the number of instrumented yields a request passes may
+// legitimately depend on lazily initialised state.
+var AutoMode = os.Getenv("SIM_AUTO") == "1"
+
+// StepCap scales a per-run step budget: instrumented builds yield before every statement.
+func StepCap(n int) int {
+	if AutoMode {
+		return n * 25
+	}
+	return n
+}
 
 // SiteName names a yield site for reports.
 func SiteName(s int) string {
@@ -60,6 +75,9 @@ func SiteName(s int) string {
 		return "beforeHandler"
 	case SiteObs:
 		return "observer"
+	}
+	if s >= 100 {
+		return "auto"
 	}
 	return "site?"
 }
